@@ -17,7 +17,7 @@
 // the class is the signature:
 //
 //	C04:accessor:<Accessor>:reverted-<write|read|committed-read|scratch>
-//	C04:twin-root:needs-<ingredient(s)>[:reverted-<write|read>:<leaf kind>]
+//	C04:twin-root:needs-<ingredient(s)>[:reverted-<write|read>:<only-in-original|only-in-twin|later-divergence>]
 //	C04:twin-root:unexplained:<account kind>-reverted-<groups>[-then-…]:<leaf kind>
 //	C04:revert:stale-revision-accepted, C04:run:panic:<site>
 //
@@ -563,7 +563,11 @@ func reduceDepth(r *mon.Run, d account.AccountDatabase, c Case, f rawFinding, bu
 			// classes are named by the ingredient alone.
 			sig = "C04:twin-root:needs-" + ing
 			if ing == "empty-account-deletion" {
-				sig += ":" + trigger + ":" + kind
+				k := kind // which side keeps the account; everything else is a later consequence
+				if k != "only-in-original" && k != "only-in-twin" {
+					k = "later-divergence"
+				}
+				sig += ":" + trigger + ":" + k
 			}
 			w.Needs = ing
 		}
